@@ -5,8 +5,10 @@ import (
 	"context"
 	"crypto"
 	"crypto/ecdsa"
+	"crypto/x509"
 	"fmt"
 	"math/rand/v2"
+	"slices"
 	"time"
 	"verif/monlog"
 
@@ -184,7 +186,15 @@ func runC36Case(r *mon.Run, pool *gen.Pool, rng *rand.Rand, idx int, tl timeline
 		wit.Chains = append(wit.Chains, *c)
 	}
 
-	g := trust.SignerGen{IA: mustIA(ia), KeyRing: ring, DB: d}
+	// the order in which a store returns the chains of a key is not part of its
+	// contract: hand them over as stored, reversed, or shuffled
+	orderMode := rng.IntN(3)
+	var sdb trust.DB = d
+	if orderMode != 0 {
+		sdb = c36OrderDB{DB: d, reverse: orderMode == 1, perm: rng.Uint64()}
+	}
+	r.Class(fmt.Sprintf("chain-order/%s", []string{"as-stored", "reversed", "shuffled"}[orderMode]))
+	g := trust.SignerGen{IA: mustIA(ia), KeyRing: ring, DB: sdb}
 	var signers []trust.Signer
 	var err error
 	t0 := time.Now()
@@ -472,4 +482,30 @@ func checkC36(r *mon.Run) {
 	r.Require(int64(n/2), 30, "signer_generated", "generate_no_signer", "signed_message_verified", "expired_signer_refused", "live_signer_signed",
 		"verifier_history", "verifier_valid_verified", "verifier_fault_hit", "verifier_faulty_attempt_failed", "verifier_learned_trc_update",
 		"verifier_retry_after_failed_trc_notification", "verifier_must_not_rejected")
+}
+
+// c36OrderDB returns the chains of a query in another order than the store does.
+type c36OrderDB struct {
+	trust.DB
+	reverse bool
+	perm    uint64
+}
+
+func (o c36OrderDB) Chains(ctx context.Context, q trust.ChainQuery) ([][]*x509.Certificate, error) {
+	cs, err := o.DB.Chains(ctx, q)
+	if err != nil || len(cs) < 2 {
+		return cs, err
+	}
+	out := append([][]*x509.Certificate{}, cs...)
+	if o.reverse {
+		slices.Reverse(out)
+		return out, nil
+	}
+	x := o.perm | 1
+	for i := len(out) - 1; i > 0; i-- {
+		x = x*6364136223846793005 + 1442695040888963407
+		j := int((x >> 33) % uint64(i+1))
+		out[i], out[j] = out[j], out[i]
+	}
+	return out, nil
 }
